@@ -63,7 +63,7 @@ package strategy
 //@   requires forall i int :: 0 <= i && i < len(params.UnscheduledPods) ==> params.UnscheduledPods[i] != nil
 //@   modifies params.NewStatus.Conditions, elems(params.NewStatus.Conditions), mapof(params.PodByNodeName)
 //@   ensures result != nil && fresh(result)
-//@   ensures [C12] canary-label-list-is-restricted-to-the-namespace: forall k int :: lognew(k) && logverb(k) == "List" ==>
+//@   ensures [C11,C12] canary-label-list-is-restricted-to-the-namespace: forall k int :: lognew(k) && logverb(k) == "List" ==>
 //@             lognamespaced(k) && logns(k) == params.Replicaset.ObjectMeta.Namespace
 //@   ensures [C08] paused-flag: result.IsPaused <==> eds.IsRollingUpdatePaused(daemonset.ObjectMeta.Annotations)
 //@   ensures [C08] frozen-flag: result.IsFrozen <==> eds.IsRolloutFrozen(daemonset.ObjectMeta.Annotations)
